@@ -137,8 +137,8 @@ func init() {
 				}
 			}
 			res = append(res, cpScanCandidates(env)...)
-			res = append(res, scanCandidates(env, "pb", env.Pick(30000, 500000), true, scanPB)...)
-			res = append(res, scanCandidates(env, "opt", env.Pick(30000, 500000), true, scanOpt)...)
+			res = append(res, scanCandidates(env, "pb", env.Pick(10000, 500000), true, scanPB)...)
+			res = append(res, scanCandidates(env, "opt", env.Pick(12000, 500000), true, scanOpt)...)
 			return res
 		},
 		Cover: func(t core.Case, cov map[string]int) bool {
